@@ -131,7 +131,7 @@ Section Acc.
     | Some _ => None
     | None =>
       match e with
-      | In p => if r_rdclosed s then None else Some (on_in s p)
+      | Inp p => if r_rdclosed s then None else Some (on_in s p)
       | InEof =>
         if r_rdclosed s then None
         else if r_fin_in s then Some (rset_eof s) else Some (rset_fail s)
